@@ -39,6 +39,13 @@ MIXED_NUM = '[3, 2.5, 10, 0.75, -1][NR % 5]'      # ints and floats in one colum
 KEYWORD_LITERALS = ["' limit 2 '", "'top 1 distinct'", "' order by a1 desc'"]      # string literals are opaque: keywords inside them are data
 ITEMS = ['a1', 'a2', 'a3', 'NR', "'lit'", 'a1 + a2', 'NR % 2 - 2', 'NR % 3 - 2', 'a2', 'a1', LIST_ITEM, MIXED_NUM] + KEYWORD_LITERALS
 UNNEST_ITEM = "UNNEST(a3.split(';'))"
+# rbql-js only: output values that JSON cannot carry. Each item yields one kind of special value next to ordinary ones,
+# so that "distinct" (which rbql-js decides on the JSON form of the record) and plain equality agree.
+JS_SPECIAL_ITEMS = ['parseInt(a2.substring(1))',            # NaN for 'x' / 'zz'
+                    '(1 + NR % 3) / (NR % 2)',              # Infinity on even records (never NaN: the two would share a JSON form)
+                    "a3.split(';')[1]",                     # undefined when there is no second part
+                    'new Date(2020, 0, 1 + NR % 3)',        # Date objects
+                    '-(NR % 2)']                            # -0 on even records (never next to +0)
 WHERES = [None, None, "a2 == 'v1'", 'NR <= 3', 'NR <= 5', "like(a2, 'v%')", 'a1 != a1', "a2 != 'zz'", "a2 != ' limit 1 '", "a1 != 'select top 1 distinct'"]
 
 
@@ -204,33 +211,58 @@ def build_query(sc, order=True, distinct=True, bound=True):
     items = list(sc['items'])
     if sc.get('unnest_at') is not None:
         items[sc['unnest_at']] = UNNEST_ITEM
-    toks = ['select']
+    toks = [KW('select')]
     b = sc.get('bound') if bound else None
     if b and b['form'] == 'top':
-        toks += ['top', str(b['n'])]
+        toks += [KW('top'), str(b['n'])]
     if distinct and sc.get('distinct') == 'd':
-        toks.append('distinct')
+        toks.append(KW('distinct'))
     elif distinct and sc.get('distinct') == 'dc':
-        toks += ['distinct', 'count']
+        toks += [KW('distinct'), KW('count')]
     toks.append(', '.join(items))
     if sc.get('join'):
-        toks += sc['join'].split(' ') + ['B', 'on', 'a2 == b1']
+        toks += [KW(w) for w in sc['join'].split(' ')] + ['B', KW('on'), 'a2 == b1']
     if sc.get('where'):
-        toks += ['where', sc['where']]
+        toks += [KW('where'), sc['where']]
     if sc.get('group_by'):
-        toks += ['group', 'by', sc['group_by']]
+        toks += [KW('group'), KW('by'), sc['group_by']]
     o = sc.get('order') if order else None
     if o:
-        toks += ['order', 'by', ', '.join(order_key_texts(sc))]
+        toks += [KW('order'), KW('by'), ', '.join(order_key_texts(sc))]
         if o['dir']:
-            toks.append(o['dir'])
+            toks.append(KW(o['dir']))
     if b and b['form'] == 'limit':
-        toks += ['limit', str(b['n'])]
+        toks += [KW('limit'), str(b['n'])]
+    # keyword spelling (case) is a knob too: a cycle of styles applied to the keyword tokens in order
+    styles = sc.get('kwcase') or ['asis']
+    k = 0
+    for i, tok in enumerate(toks):
+        if isinstance(tok, KW):
+            toks[i] = recase(str(tok), styles[k % len(styles)])
+            k += 1
     seps = sc.get('spacing') or [' ']
     out = toks[0]
     for i, tok in enumerate(toks[1:]):
         out += seps[i % len(seps)] + tok
     return out
+
+
+class KW(str):
+    """A keyword token of the query text (as opposed to an expression or a number)."""
+
+
+def recase(word, style):
+    if style == 'upper':
+        return word.upper()
+    if style == 'lower':
+        return word.lower()
+    if style == 'title':
+        return word[:1].upper() + word[1:].lower()
+    if style == 'mixed':
+        return ''.join(c.upper() if i % 2 else c.lower() for i, c in enumerate(word))
+    if style == 'mixed2':
+        return ''.join(c.lower() if i % 2 else c.upper() for i, c in enumerate(word[:-1])) + word[-1:].upper()
+    return word
 
 
 def order_key_texts(sc):
@@ -330,7 +362,7 @@ def generate(rng, tier, idx):
             c2 = rng.choice(sortable)
             if c2 != cols[0]:
                 cols.append(c2)
-        sc['order'] = {'cols': cols, 'dir': rng.choice([None, 'asc', 'desc', 'DESC', 'desc'])}
+        sc['order'] = {'cols': cols, 'dir': rng.choice([None, 'asc', 'desc', 'DESC', 'desc', 'ASC', 'desc'])}
         if rng.random() < 0.4:
             # keys that are not (all) in the select list; ints and strings are never mixed within one key position
             pool = ['a1', 'a2', 'a3', 'NR', 'a2 + a1', 'NR % 2', 'NR % 3', LIST_ITEM, "[NR % 2] + a3.split(';')", MIXED_NUM, MIXED_NUM]
@@ -358,7 +390,15 @@ def generate(rng, tier, idx):
         sc['join_rows'] = [[rng.choice(keys), rng.choice(['J1', 'J2', 'J3']), rng.choice(['m', 'n'])] for _ in range(rng.choice([0, 1, 2, 3, 4, 5]))]
     if rng.random() < 0.3:
         sc['spacing'] = [rng.choice([' ', ' ', '  ', '   ', ' \t', '\t ']) for _ in range(rng.choice([2, 3, 5]))]
-    sc['engines'] = ['py', 'js']
+    if rng.random() < 0.06 and not sc.get('group_by') and not (sc['producer']['type'] == 'finite' and any(len(r) < 3 for r in sc['producer']['rows'])):
+        free = [i for i in range(len(sc['items'])) if i != sc['unnest_at'] and not (sc['order'] and i in sc['order']['cols'])]
+        if free:
+            sc['items'] = list(sc['items'])
+            sc['items'][rng.choice(free)] = rng.choice(JS_SPECIAL_ITEMS)
+            sc['js_only'] = True
+    if rng.random() < 0.3:
+        sc['kwcase'] = [rng.choice(['upper', 'lower', 'title', 'title', 'mixed', 'mixed2', 'asis']) for _ in range(rng.choice([1, 2, 3, 5]))]
+    sc['engines'] = ['js'] if sc.get('js_only') else ['py', 'js']
     # a quarter of the runs print through the real CSV writer (Python engine), which rewrites the records it receives in place
     sc['writer'] = 'csv' if rng.random() < 0.25 else 'list'
     if rng.random() < 0.12:
@@ -366,6 +406,8 @@ def generate(rng, tier, idx):
         key = rng.choice(['a2', 'a1', 'a3'])
         sc['items'] = [key, rng.choice(['COUNT(*)', 'MAX(a1)', 'MIN(a2)', 'COUNT(1)'])]
         sc['group_by'] = key
+        sc.pop('js_only', None)
+        sc['engines'] = ['py', 'js']
         sc['unnest_at'] = None
         sc['distinct'] = None
         sc['order'] = None
@@ -625,6 +667,10 @@ def shrinks(sc):
     if sc.get('spacing'):
         c = dict(sc)
         c.pop('spacing')
+        yield c
+    if sc.get('kwcase'):
+        c = dict(sc)
+        c.pop('kwcase')
         yield c
     if sc.get('bound'):
         b = sc['bound']
